@@ -333,7 +333,7 @@ func gen(w *kit.Out, r *kit.Rand, tier string) {
 	boundary(w)
 	nCases, nOps, nMal := 120, 30, 150
 	if tier == "thorough" {
-		nCases, nOps, nMal = 400, 45, 1000
+		nCases, nOps, nMal = 320, 45, 1000
 	}
 	rr := r.Fork()
 	for i := 0; i < nCases; i++ {
